@@ -139,6 +139,7 @@ fn is_ijson(v: &Value) -> bool {
         _ => true,
     }
 }
+pub fn same_shape_pub(a: &Value, b: &Value) -> bool { same_shape(a, b) }
 fn same_shape(a: &Value, b: &Value) -> bool {
     // canonicalization changes only number spellings and member order
     match (a, b) {
